@@ -93,6 +93,9 @@ class SymEval:
             if nm in ("bool", "int", "str", "cast") and e.args:
                 return V(e.args[-1])
             fn = V(e.func.value) + "." + e.func.attr if isinstance(e.func, ast.Attribute) else nm
+            if isinstance(e.func, ast.Name) and e.func.id not in bound and at is not None and \
+                    any(d.kind != "entry" for d in self.fm.cfg.reaching_defs(e.func.id, at)):
+                fn = self._name(e.func.id, at, depth + 1)      # a local that stands for a function
             args = [V(a) for a in e.args] + [f"{k.arg}={V(k.value)}" for k in e.keywords]
             return f"{fn}({','.join(args)})"
         if isinstance(e, (ast.ListComp, ast.GeneratorExp, ast.SetComp)):
@@ -211,6 +214,8 @@ class SymEval:
                 if d.kind == "entry":
                     toks.add(name)
                     continue
+                if self.assume and len(defs) > 1 and self._dead(d):
+                    continue
                 if d.kind == "for":
                     env: dict = {}
                     self._bind(d.ast.target, self.val(d.ast.iter, d, None, depth + 1), env)
@@ -252,6 +257,15 @@ class SymEval:
             return sorted(toks)[0] if len(toks) == 1 else "<" + " | ".join(sorted(toks)) + ">"
         finally:
             self._busy.discard(key)
+
+    def _dead(self, d) -> bool:
+        """the definition sits on a branch that the case assumptions exclude"""
+        for test, pol, b in self.fm.facts(d):
+            tnode = self.fm.cfg.nodes[next(iter(self.fm.cfg.g.predecessors(b.id)))]
+            t = self.truth(test, tnode)
+            if t is not None and t != pol:
+                return True
+        return False
 
     def _appends(self, name: str):
         """Contributions to the collection `name`: (cfg node, element token, extra condition or None)."""
